@@ -5,8 +5,7 @@ import os
 
 VERIF = os.path.dirname(os.path.dirname(os.path.abspath(__file__)))
 
-BASELINE_OFF = ("cmake --build /repo/_build -j16 && ctest --test-dir /repo/_build -j8 --timeout 900 "
-                "--output-junit /tmp/opm_baseline_off.junit.xml")
+BASELINE_OFF = "/verif/tool/baseline.sh"
 
 CLAIMED = {
     "C11": dict(
